@@ -105,9 +105,9 @@ def run(tier: str) -> int:
                       "if/raw/comment/doc with EVERY combination of hyphens on every delimiter, second markup output/assign; texts incl. "
                       "whitespace-only, trailing newline, markup-like fragments; expected output = Required(src) of the specification")
     try:
-        cfgs = [gen_cfg("cfg/Lexer.tmpl", dict(T0="TextsHead" if tier == "quick" else "TextsQuick", T1="TextsQuick" if tier == "quick" else "TextsFull",
-                                               T2="TextsTail" if tier == "quick" else "TextsQuick", Bodies="BodiesQuick" if tier == "quick" else "BodiesFull",
-                                               First=ALLK, Second='{"output","short"}' if tier == "quick" else '{"output","assign","raw","short"}',
+        cfgs = [gen_cfg("cfg/Lexer.tmpl", dict(T0="TextsHead", T1="TextsQuick",
+                                               T2="TextsTail", Bodies="BodiesQuick" if tier == "quick" else "BodiesFull",
+                                               First=ALLK, Second='{"output","short"}' if tier == "quick" else '{"output","assign","short"}',
                                                Dev="FALSE", Emit="INVARIANT Emit"), "lex"),
                 gen_cfg("cfg/Lexer.tmpl", dict(T0="TextsHead", T1="TextsHead", T2="TextsHead", Bodies="BodiesQuick", First='{"raw"}',
                                                Second='{"output"}', Dev="TRUE", Emit=""), "lexdev")]
@@ -116,7 +116,7 @@ def run(tier: str) -> int:
                                                 Second='{"output","short"}', Dev="FALSE", Emit="INVARIANT Emit"), "lexe1"),
                  gen_cfg("cfg/Lexer.tmpl", dict(T0="TextsHead", T1="TextsQuick", T2="TextsTail", Bodies="BodiesEmpty", First='{"output","assign","if"}',
                                                 Second='{"raw"}', Dev="FALSE", Emit="INVARIANT Emit"), "lexe2")]
-        main, dev, e1, e2 = run_many([("Lexer", cfgs[0], dict(workers=1, timeout=3000)),
+        main, dev, e1, e2 = run_many([("Lexer", cfgs[0], dict(workers=1, timeout=3000, extra=["-maxSetSize", "8000000"])),
                                       ("Lexer", cfgs[1], dict(workers=2, timeout=600, expect_violation=True)),
                                       ("Lexer", cfgs[2], dict(workers=1, timeout=3000)), ("Lexer", cfgs[3], dict(workers=1, timeout=3000))])
     finally:
